@@ -24,6 +24,9 @@ CONF = {
                 thorough=[('par', ('H_P', 'M_P', 'T_P', 'O_P', 5, 4, 'NoGates'), 150000)]),
 }
 
+CONF['views'] = dict(quick=[('gates-deep', ('H_G', 'M_E0', 'T_G2', 'O_G2', 4, 2, 'NoGates'), 6000), ('struct', ('H_E', 'M_E0', 'T_E', 'O_E', 3, 3), 6000)],
+                     thorough=CONF['gates']['thorough'] + CONF['struct']['thorough'])
+
 PROPS = {
     'C12': dict(conf=['struct'], owned={'accept_iff', 'rule_named', 'n_subcircuits'}, sites=('run',),
                 rule='placements of prepare_all / measure_all / gates / subcircuit blocks over nested sequential blocks, '
@@ -41,7 +44,7 @@ PROPS = {
     'C13': dict(conf=['par'], owned={'reject_iff_overlap', 'used_exact_circuit', 'used_exact_statement', 'vector'}, sites=('run', 'used'),
                 rule='parallel blocks with gate / sequential-block branches over 3 qubits named directly, through an alias or a '
                      'macro parameter, idle gates; non-trivial = distinct programs with a parallel block of >= 2 branches'),
-    'C15': dict(conf=['gates', 'struct'], owned={'as_str', 'by_str_order', 'views_agree', 'normalised', 'str_int_same', 'freq_counts'},
+    'C15': dict(conf=['views'], owned={'as_str', 'by_str_order', 'views_agree', 'normalised', 'str_int_same', 'freq_counts'},
                 sites=('run', 'outparse', 'rerun'),
                 rule='result views of every subcircuit and readout of the C03 and C08 runs; non-trivial = accepted programs'),
 }
